@@ -1336,7 +1336,8 @@ class Config:  # pylint: disable=too-many-instance-attributes
                     virtual=virtual, sensitive_mask=sensitive_mask
                 )
             elif (
-                isinstance(field_value, list)
+                (virtual or sensitive_mask is not None)
+                and isinstance(field_value, list)
                 and field_value
                 and all(isinstance(item, Config) for item in field_value)
                 and not (
